@@ -77,6 +77,7 @@ GenCmd(st, sd, t) ==
        ELSE IF k < 40 THEN [k |-> "d"]
        ELSE IF k < 46 THEN [k |-> "u"]
        ELSE IF k < 49 THEN [k |-> "redo"]
+       ELSE IF k < 51 THEN [k |-> "wp"]
        ELSE IF k < 59 THEN [k |-> "w", path |-> "", whole |-> TRUE, beg |-> 0, end |-> 0, force |-> f(6), fault |-> ""]
        ELSE IF k < 63 THEN [k |-> "w", path |-> PathOf(sd, t, 2), whole |-> TRUE, beg |-> 0, end |-> 0, force |-> f(3), fault |-> ""]
        ELSE IF k < 67 THEN (IF n >= 2 THEN [k |-> "w", path |-> "", whole |-> FALSE, beg |-> 0, end |-> 1, force |-> f(4), fault |-> ""]
@@ -115,6 +116,7 @@ LineStr(cs) == IF cs = <<>> THEN <<>>
 Typed(st, c) ==
     CASE c.k = "e" -> <<101>> \o (IF "ew" \in DOMAIN c /\ c.ew THEN <<119>> ELSE <<>>) \o Bang(c.force) \o Sp(c.path) \o <<10>>
       [] c.k = "w" -> (IF c.whole THEN <<>> ELSE Num(c.beg + 1) \o <<44>> \o Num(c.end)) \o <<119>> \o Bang(c.force) \o Sp(c.path) \o <<10>>
+      [] c.k = "wp" -> <<119, 32, 33, 99, 97, 116, 32, 62, 47, 100, 101, 118, 47, 110, 117, 108, 108, 10>>    \* "w !cat >/dev/null"
       [] c.k = "q" -> <<113>> \o Bang(c.force) \o <<10>>
       [] c.k = "wq" -> <<119, 113>> \o Bang(c.force) \o <<10>>
       [] c.k = "x" -> <<120>> \o Bang(c.force) \o <<10>>
@@ -190,7 +192,10 @@ CorpusScripts == <<
        [k |-> "q", force |-> FALSE, fault |-> ""] >>,
     (* a partial write to the buffer's own file does not make it unmodified *)
     << [k |-> "e", path |-> "f1", force |-> FALSE], [k |-> "a", n |-> 2],
-       [k |-> "w", path |-> "", whole |-> FALSE, beg |-> 0, end |-> 1, force |-> TRUE, fault |-> ""], [k |-> "q", force |-> FALSE, fault |-> ""] >> >>
+       [k |-> "w", path |-> "", whole |-> FALSE, beg |-> 0, end |-> 1, force |-> TRUE, fault |-> ""], [k |-> "q", force |-> FALSE, fault |-> ""] >>,
+    (* piping an unnamed modified buffer to a command neither names nor saves it: :q is refused *)
+    << [k |-> "a", n |-> 2], [k |-> "wp"], [k |-> "q", force |-> FALSE, fault |-> ""], [k |-> "e", path |-> "f1", force |-> FALSE],
+       [k |-> "a", n |-> 1], [k |-> "wp"], [k |-> "q", force |-> FALSE, fault |-> ""] >> >>
 Seed0 == EnvN("SEED0", 1)
 NScripts == EnvN("NSCRIPTS", 4)
 NSteps == EnvN("NSTEPS", 30)
